@@ -167,6 +167,7 @@ RunResult run_plan(const Plan &p, Totals *tot) {
         tot->runs++; tot->events += rr.stats.events; tot->accesses += rr.stats.accesses; tot->preemptions += rr.stats.preemptions; tot->switches += rr.stats.switches;
         tot->ops += nops; tot->sync_ops += rr.stats.sync_ops;
         tot->strategy[p.victim ? 4 : p.mean_gap == 0 ? 0 : p.mean_gap >= 2000 ? 1 : p.mean_gap >= 150 ? 2 : 3]++;
+        tot->locale_runs += p.locale ? 1 : 0; tot->libc_reads += rr.stats.libc_state_reads; tot->libc_writes += rr.stats.libc_state_writes;
     }
     return rr;
 }
@@ -199,9 +200,9 @@ static Outcome run_forked(const Plan &p, std::string *line_out = nullptr, Totals
     if (pid == 0) {
         close(fd[0]); dup2(fd[1], 1); close(fd[1]); alarm(30);
         Totals t; RunResult rr = run_plan(p, &t);
-        std::printf("T %llu %llu %llu %llu %llu %llu %llu %llu %llu %llu %llu %llu\n", (unsigned long long)t.events, (unsigned long long)t.accesses, (unsigned long long)t.preemptions, (unsigned long long)t.switches,
+        std::printf("T %llu %llu %llu %llu %llu %llu %llu %llu %llu %llu %llu %llu %llu %llu %llu\n", (unsigned long long)t.events, (unsigned long long)t.accesses, (unsigned long long)t.preemptions, (unsigned long long)t.switches,
                     (unsigned long long)t.ops, (unsigned long long)t.sync_ops, (unsigned long long)t.strategy[0], (unsigned long long)t.strategy[1], (unsigned long long)t.strategy[2], (unsigned long long)t.strategy[3],
-                    (unsigned long long)t.strategy[4], (unsigned long long)rr.sig);
+                    (unsigned long long)t.strategy[4], (unsigned long long)rr.sig, (unsigned long long)t.locale_runs, (unsigned long long)t.libc_reads, (unsigned long long)t.libc_writes);
         const uint8_t *m; int dim; rt_overlap_matrix(&m, &dim);
         std::printf("O"); for (int i = 0; i < dim * dim; i++) if (m[i]) std::printf(" %d", i); std::printf("\n");
         std::printf("W"); for (const Switch &w : rr.recorded) std::printf(" %llu:%u", (unsigned long long)w.event, w.thread); std::printf("\n");
@@ -242,7 +243,8 @@ static Outcome run_forked(const Plan &p, std::string *line_out = nullptr, Totals
     if (tot) {
         size_t tp = buf.find("T ");
         if (tp == 0) {
-            unsigned long long v[12] = {0}; std::sscanf(buf.c_str() + 2, "%llu %llu %llu %llu %llu %llu %llu %llu %llu %llu %llu %llu", &v[0], &v[1], &v[2], &v[3], &v[4], &v[5], &v[6], &v[7], &v[8], &v[9], &v[10], &v[11]);
+            unsigned long long v[15] = {0}; std::sscanf(buf.c_str() + 2, "%llu %llu %llu %llu %llu %llu %llu %llu %llu %llu %llu %llu %llu %llu %llu", &v[0], &v[1], &v[2], &v[3], &v[4], &v[5], &v[6], &v[7], &v[8], &v[9], &v[10], &v[11], &v[12], &v[13], &v[14]);
+            tot->locale_runs += v[12]; tot->libc_reads += v[13]; tot->libc_writes += v[14];
             tot->runs++; tot->events += v[0]; tot->accesses += v[1]; tot->preemptions += v[2]; tot->switches += v[3]; tot->ops += v[4]; tot->sync_ops += v[5];
             for (int i = 0; i < 5; i++) tot->strategy[i] += v[6 + i];
         } else tot->runs++;
@@ -328,10 +330,12 @@ int main(int argc, char **argv) {
         int nk = bop_count() + 1;
         std::printf("S {\"runs\": %llu, \"violations\": %llu, \"ops\": %llu, \"events\": %llu, \"steps\": %llu, \"accesses_checked\": %llu, \"nontrivial_runs\": %llu, \"distinct_nontrivial\": %zu, "
                     "\"faults\": {\"preemptions_injected\": %llu, \"context_switches\": %llu}, \"sync_operations_modelled\": %llu, \"unsupported_primitive_runs\": %llu, "
-                    "\"strategies\": {\"serial\": %llu, \"rare_preemption\": %llu, \"medium_preemption\": %llu, \"frequent_preemption\": %llu, \"window_targeted\": %llu}, \"overlap_pairs\": [",
+                    "\"strategies\": {\"serial\": %llu, \"rare_preemption\": %llu, \"medium_preemption\": %llu, \"frequent_preemption\": %llu, \"window_targeted\": %llu}, "
+                    "\"libc_process_state\": {\"runs_under_non_C_locale\": %llu, \"modelled_reads\": %llu, \"modelled_writes\": %llu}, \"overlap_pairs\": [",
                     (unsigned long long)tot.runs, (unsigned long long)viols, (unsigned long long)tot.ops, (unsigned long long)tot.events, (unsigned long long)tot.events, (unsigned long long)tot.accesses,
                     (unsigned long long)nt, distinct.size(), (unsigned long long)tot.preemptions, (unsigned long long)tot.switches, (unsigned long long)tot.sync_ops, (unsigned long long)unsupported,
-                    (unsigned long long)tot.strategy[0], (unsigned long long)tot.strategy[1], (unsigned long long)tot.strategy[2], (unsigned long long)tot.strategy[3], (unsigned long long)tot.strategy[4]);
+                    (unsigned long long)tot.strategy[0], (unsigned long long)tot.strategy[1], (unsigned long long)tot.strategy[2], (unsigned long long)tot.strategy[3], (unsigned long long)tot.strategy[4],
+                    (unsigned long long)tot.locale_runs, (unsigned long long)tot.libc_reads, (unsigned long long)tot.libc_writes);
         bool first = true; for (int v : overlap) { std::printf("%s%d", first ? "" : ",", v); first = false; }
         std::printf("], \"overlap_dim\": %d, \"op_kinds\": %d}\n", (int)OV_DIM, nk);
         const char *sigfile = arg(argc, argv, "--sigs", nullptr);
